@@ -228,7 +228,15 @@ class Interp:
                 return z3.Length(v.t) != 0
             if isinstance(v.ty, OptT):
                 s = sort_of(v.ty)
-                return s.recognizer(1)(v.t)
+                some = s.recognizer(1)(v.t)
+                inner = s.accessor(1, 0)(v.t)
+                if v.ty.elem == STR:
+                    return z3.And(some, z3.Length(inner) > 0)
+                if v.ty.elem == INT:
+                    return z3.And(some, inner != 0)
+                if v.ty.elem == BOOL:
+                    return z3.And(some, inner)
+                return some
             if isinstance(v.ty, Abs):
                 f = z3.Function(f"truthy_{v.ty.key}", sort_of(v.ty), z3.BoolSort())
                 return f(v.t)
@@ -468,9 +476,16 @@ class Interp:
         b = self.eval(n.right, env)
         return self.binop(n.op, a, b, n)
 
+    def unwrap_opt(self, v, node=None, what="operand-not-None"):
+        if isinstance(v, SV) and isinstance(v.ty, OptT):
+            self.implicit("TypeError", z3.simplify(sort_of(v.ty).recognizer(1)(v.t)), what, node)
+            return unpack(self.ctx, sort_of(v.ty).accessor(1, 0)(v.t), v.ty.elem)
+        return v
+
     def binop(self, op, a, b, node=None):
         if isinstance(a, Opaque) or isinstance(b, Opaque):
             return Opaque("binop")
+        a, b = self.unwrap_opt(a, node), self.unwrap_opt(b, node)
         if not is_sym(a) and not is_sym(b) and not isinstance(a, (Obj, Opaque, PyList, PyDict)) and not isinstance(b, (Obj, Opaque, PyList, PyDict)):
             return _PYOPS[type(op)](a, b)
         if isinstance(a, PyList) and isinstance(b, PyList) and isinstance(op, ast.Add):
@@ -494,6 +509,8 @@ class Interp:
                     raise Unsupported("repeat of multi-char string by symbolic count")
                 raise Unsupported(f"sequence repetition of {seq!r}")
             return SV(z3.simplify(zint(a) * zint(b)), INT)
+        if isinstance(op, ast.Add) and (self.is_zstr(a) or self.is_zstr(b)) and (self.is_zstr(a) or isinstance(a, str)) and (self.is_zstr(b) or isinstance(b, str)):
+            return SV(z3.simplify(z3.Concat(pack(self.ctx, a, STR), pack(self.ctx, b, STR))), STR)
         if isinstance(op, ast.Add):
             if self.is_seq(a) or self.is_seq(b):
                 ety = self.seq_ety(a) or self.seq_ety(b)
@@ -506,6 +523,9 @@ class Interp:
         if isinstance(op, ast.BitOr) or isinstance(op, ast.BitAnd):
             raise Unsupported("bit operation on symbolic values")
         raise Unsupported(f"binary {type(op).__name__} on {a!r}, {b!r}")
+
+    def is_zstr(self, v):
+        return isinstance(v, SV) and v.ty == STR
 
     def is_seq(self, v):
         return isinstance(v, (SList, str, PyList)) or (isinstance(v, SV) and v.ty == CHAR)
@@ -681,7 +701,7 @@ class Interp:
                 return SV(z3.simplify(a.t == pack(self.ctx, b, ta)), BOOL)
             if isinstance(tb, OptT) and tb.elem == ta:
                 return SV(z3.simplify(b.t == pack(self.ctx, a, tb)), BOOL)
-            if ta == STR and isinstance(b, str) or tb == STR and isinstance(a, str):
+            if (ta == STR and isinstance(b, str)) or (tb == STR and isinstance(a, str)):
                 return SV(z3.simplify(pack(self.ctx, a, STR) == pack(self.ctx, b, STR)), BOOL)
             return False
         if isinstance(a, Obj) and isinstance(b, Obj):
@@ -781,6 +801,8 @@ class Interp:
                 return self.V.user_contains(self, c, item, node)
             i = z3.Int(self.ctx.fresh_name("i"))
             return SV(z3.Exists([i], z3.And(0 <= i, i < c.nz(), z3.Select(c.arr, i) == pack(self.ctx, item, c.ety))), BOOL)
+        if self.is_zstr(c) and (self.is_zstr(item) or isinstance(item, str)):
+            return SV(z3.simplify(z3.Contains(c.t, pack(self.ctx, item, STR))), BOOL)
         if isinstance(c, Obj) and callable(c.fields.get("__contains__")):
             return c.fields["__contains__"](self, item)
         if isinstance(c, Opaque) or (isinstance(c, FuncRef) and c.node is None):
@@ -803,6 +825,20 @@ class Interp:
         return self.index(base, idx, n)
 
     def slice(self, base, lo, hi, st, node):
+        if self.is_zstr(base) or (isinstance(base, str) and any(is_sym(x) for x in (lo, hi))):
+            if st is not None:
+                raise Unsupported("string slice step")
+            t = pack(self.ctx, base, STR)
+            n = z3.Length(t)
+
+            def norm(x, default):
+                if x is None:
+                    return default
+                x = zint(x)
+                return z3.If(x < 0, z3.If(x + n < 0, 0, x + n), z3.If(x > n, n, x))
+
+            lo_z, hi_z = norm(lo, z3.IntVal(0)), norm(hi, n)
+            return SV(z3.simplify(z3.SubString(t, lo_z, z3.If(hi_z > lo_z, hi_z - lo_z, 0))), STR)
         if not is_sym(base) and not any(is_sym(x) for x in (lo, hi, st)):
             if isinstance(base, PyList):
                 return PyList(base.items[lo:hi:st])
@@ -857,6 +893,11 @@ class Interp:
             return base.fields["__getitem__"](self, idx)
         if isinstance(base, Obj) and self.V.has_method(base.cls, "__getitem__"):
             return self.call_method(base, "__getitem__", [idx], {}, node)
+        if self.is_zstr(base):
+            n = z3.Length(base.t)
+            i = zint(idx)
+            self.implicit("IndexError", z3.simplify(z3.And(-n <= i, i < n)), "index-in-range", node)
+            return SV(z3.simplify(z3.SubString(base.t, z3.If(i < 0, i + n, i), 1)), STR)
         if isinstance(base, Opaque):
             return Opaque(f"{base.what}[...]")
         if isinstance(base, FuncRef) and base.node is None:
